@@ -455,6 +455,14 @@ func c11FileAbstract(f map[string]any) map[string]any {
 		}
 	}
 	out["elems"] = elems
+	hasSchema, hasContent := false, false
+	for _, k := range jlist(root["kids"]) {
+		if sl := slotOf(k); len(sl) > 0 {
+			hasSchema = hasSchema || sl[0] == "schema"
+			hasContent = hasContent || sl[0] == "content"
+		}
+	}
+	out["conflict"] = view != "doc" && hasSchema && hasContent
 	extra := []any{}
 	if defs, ok := f["defs"].(map[string]any); ok {
 		names := []string{}
